@@ -21,7 +21,7 @@ from simverif.core.rng import stream
 
 ID = 'C02'
 LEVEL = 'exploration'
-TIERS = {'quick': {'runs': 900}, 'thorough': {'seconds': 900}}
+TIERS = {'quick': {'runs': 2400}, 'thorough': {'seconds': 900}}
 DET_PAIRS_PER_SLOT = 2
 RULE = ("one run = one file (size swarmed over 1, 15, 16, 17, AES-block and blob boundaries 2 MiB-2 / 2 MiB-1 / 2 MiB / "
         "2*(2 MiB-1)+5, random sizes; seeded key and IV sequence or the product's own; file name from an alphabet with "
